@@ -215,14 +215,23 @@ def check(pid, tier):
             crashes.append(r["crash"] + " @ " + r["payload"] + "\n" + r["trace"][-500:])
         else:
             obs.extend(r["obligations"])
+    try:
+        from . import s18optional
+
+        obs += s18optional.all_obligations(pid)  # which member of Optional[T] the emitters convert
+    except Exception as e:  # noqa
+        import traceback
+
+        crashes.append(f"S18: {type(e).__name__}: {e}\n{traceback.format_exc()[-600:]}")
     return runner.finish(
         pid, tier, obs, t0,
         technique="generated union/literal helper functions (inlined into the harvested from_dict/to_dict) against UNION_DEC / UNION_ENC / LITERAL reference functions written from the property statement, symbolic execution with symbolic type(value) and per-member raise predicates (pysym, z3)",
         units=len(payloads),
         extra_cov={"unions": len(payloads), "bound": "union arity <= 3 (quick) / <= 4 (thorough), members from 15 kinds; bounded, stated",
                    "explanation": "per union: dec_strict (the property), dec_staged (regression contract pinning the listed findings), enc (exact-class members without containers)"},
-        trusted={"member conversions are uninterpreted (induction hypothesis); enc: a conforming value has exactly the class of one member, a method exists iff the class has it, builtin str is total"},
-        functions=["UnionUnpackerBuilder._add_body", "LiteralUnpackerBuilder._add_body", "pack_union", "pack_literal", "expr_or_maybe_none (through the texts they produce)"],
+        trusted={"member conversions are uninterpreted (induction hypothesis); enc: a conforming value has exactly the class of one member, a method exists iff the class has it, builtin str is total",
+                 "S18 precondition: type arguments are hashable; arities 0..4 of not_none_type_arg (each a full proof; larger arities not covered)"},
+        functions=["helpers.not_none_type_arg (S18, real AST)", "UnionUnpackerBuilder._add_body", "LiteralUnpackerBuilder._add_body", "pack_union", "pack_literal", "expr_or_maybe_none (through the texts they produce)"],
         crashes=crashes,
     )
 
